@@ -324,7 +324,7 @@ class Ctx:
 
 
 def _write_replay(prop: str, v: dict) -> Path:
-    out = VERIF / "out" / "replays" / prop
+    out = Path(os.environ.get("VERIF_OUT_DIR") or (VERIF / "out")) / "replays" / prop
     out.mkdir(parents=True, exist_ok=True)
     body = {"property": prop, "sig": v["sig"], "key": v.get("key"), "detail": v.get("detail"), "spec": v["spec"]}
     name = hashlib.sha1(canon(body).encode()).hexdigest()[:16] + ".json"
@@ -373,8 +373,8 @@ def finish(ctx: Ctx, mod, exhaustive_flag: bool | None = None) -> int:
         "wall_s": round(time.time() - ctx.t0, 2),
         "violations": n_viol,
     }
-    evd = VERIF / "evidence"
-    evd.mkdir(exist_ok=True)
+    evd = Path(os.environ.get("VERIF_EVIDENCE_DIR") or (VERIF / "evidence"))
+    evd.mkdir(parents=True, exist_ok=True)
     try:
         (evd / f"{ctx.prop}.json").write_text(json.dumps(ev, indent=1, sort_keys=True, default=_json_default))
     except Exception:
